@@ -1,6 +1,7 @@
 package props
 
 import (
+	"errors"
 	"bytes"
 	"context"
 	"fmt"
@@ -56,8 +57,17 @@ type cliScenario struct {
 	CloseAt     int          `json:"close_at"` // odd tick, -1: closed at the end
 	DoubleClose bool         `json:"double_close"`
 	LogDropped  bool         `json:"log_dropped"`    // nclient6: WithLogDroppedPackets
+	CloseFails  bool         `json:"close_fails,omitempty"` // fault injection: the socket's own Close reports an error (it is closed all the same)
+	LogMode     int          `json:"log_mode,omitempty"` // logging configuration of the client (adapter.start); 0: none
 	Dest        int          `json:"dest,omitempty"` // destination selector (adapter.setDest): other ports, broadcast, zoned IPv6 addresses
 	Window      int          `json:"window,omitempty"` // unlimited tries are watched for this many tries before the runner cancels (0: 11)
+}
+
+func (sc cliScenario) logMode() int {
+	if sc.LogDropped {
+		return 1
+	}
+	return sc.LogMode
 }
 
 func (sc cliScenario) window() int {
@@ -131,7 +141,10 @@ func runCliScenario(t *testing.T, sc cliScenario) cliOutcome {
 		}
 		ad.setDest(sc.Dest)
 		conn := netsim.New(8192)
-		if err := ad.start(conn, time.Duration(sc.T)*tick, sc.Tries, sc.LogDropped); err != nil {
+		if sc.CloseFails {
+			conn.CloseErr = errors.New("close: input/output error")
+		}
+		if err := ad.start(conn, time.Duration(sc.T)*tick, sc.Tries, sc.logMode()); err != nil {
 			panic(err)
 		}
 		type action struct {
